@@ -249,7 +249,7 @@ pub fn check(t: &Triple, obs: &mut Obs) -> Result<(), String> {
 pub fn property() -> Property {
     Property {
         id: "C03",
-        rule: "Triples (A,B,C) of version strings over arbitrary text minus the five characters that cannot be on both sides ('-' '<' '>' '{' '}'): the C01 token generator plus arbitrary Unicode, control characters, 19-40-digit runs and 150-220-character strings; B and C are derived from A by order-preserving edits (1 <-> 1.0 <-> 1_0 <-> 1pl <-> 1nb0 <-> 01, case change, ignorable character) or small increases (nb1, .1, letter), C usually continues from B, then the three are permuted. Oracle: algebraic laws on the library's own verdicts v(X,op,Y) = Pattern('p'+op+Y).matches('p-'+X): trichotomy, duality, reflexivity, converse, transitivity of <= (and strictness propagation) over all 27 index triples, and two-bound = conjunction of halves for all 27 role assignments x 4 operator pairs. Non-trivial = at least two of the three strings differ AND (two different strings tie, or a transitivity antecedent with a strict step holds). Distinct = distinct triples.",
+        rule: "Triples (A,B,C) of version strings over arbitrary text minus the five characters that cannot be on both sides ('-' '<' '>' '{' '}'): the C01 token generator plus arbitrary Unicode, control characters, 19-40-digit runs and 150-220-character strings; B and C are derived from A by order-preserving edits (1 <-> 1.0 <-> 1_0 <-> 1pl <-> 1nb0 <-> 01, case change, ignorable character) or small increases (nb1, .1, letter), C usually continues from B, then the three are permuted. Oracle: algebraic laws on the library's own verdicts v(X,op,Y) = Pattern('p'+op+Y).matches('p-'+X): trichotomy, duality, reflexivity, converse, transitivity of <= (and strictness propagation) over all 27 index triples, and two-bound = conjunction of halves for all 27 role assignments x 4 operator pairs. Non-trivial = at least two of the three strings differ AND (two different strings tie, or a transitivity antecedent with a strict step holds). Distinct = distinct triples. Generators also draw, at low weight, tokens from the source-literal dictionary (every string / byte / character literal of the library's own source, collected at build time and filtered by this domain's character class) (through the C01 token generator, incl. chosen-count long prefixes).",
         assumptions: vec!["no reference model: the laws are checked on the implementation's own verdicts"],
         streams: vec![random_stream(
             "triples",
